@@ -325,7 +325,65 @@ def h_sortvec(cx, N, T, ts, pattern, ref='sym'):
                 cx.prove(s_out >= s_b * (1 - 1e-9), 'returned order maximises the overlap score [t=%d, vs %s]' % (t, list(b)))
 
 
-HARNESSES = dict(gevp=h_gevp, bad=h_bad, prune=h_prune, sortvec=h_sortvec)
+def _same_vec(cx, a, b):
+    a, b = np.asarray(a, dtype=object).ravel(), np.asarray(b, dtype=object).ravel()
+    if len(a) != len(b):
+        return False
+    if cx.mode == 'sym':
+        return all(z3.simplify(tz(x) - tz(y)).eq(z3.RealVal(0)) if (isinstance(x, SV) or isinstance(y, SV)) else x == y for x, y in zip(a, b))
+    return bool(np.array_equal(np.asarray(a, dtype=float), np.asarray(b, dtype=float)))
+
+
+def h_gevp_sortvec(cx, N, T, pattern, t0, ts, method='eigh'):
+    """Corr.GEVP(sort='Eigenvector'): what is handed to _sort_vectors and what is made of its result.
+    _sort_vectors must receive one entry per timeslice (None for t <= t0 and undefined timeslices, else the solver's vectors of that timeslice, state 0 =
+    largest eigenvalue) and the caller's reference time ts as an absolute timeslice; the returned list [state][t] is the transposed result of _sort_vectors
+    (whose own correctness is decided by the sortvec harness)."""
+    import pyerrors as pe
+    import pyerrors.correlators as C
+    rec = {}
+    install(cx, rec)
+    corr = mk_matrix_corr(cx, T, N, pattern)
+    calls = []
+    real_sort = C._sort_vectors
+    solved = []
+    real_solver = C._GEVP_solver
+
+    def solver(Gt, G0, **k):
+        out = real_solver(Gt, G0, **k)
+        solved.append(out)
+        return out
+
+    def sort_vectors(vec_set, ts_arg):
+        calls.append((list(vec_set), ts_arg))
+        out = list(vec_set)                   # identity: the permutation logic itself is the subject of the sortvec harness
+        calls.append(out)
+        return out
+    cx.patch(C, '_GEVP_solver', solver)
+    cx.patch(C, '_sort_vectors', sort_vectors)
+    vecs = corr.GEVP(t0, ts=ts, sort='Eigenvector', method=method)
+    if not cx.expect(len(calls) == 2, '_sort_vectors called once', str(len(calls))):
+        return
+    (vec_set, ts_arg), _ = calls
+    cx.expect(ts_arg == ts, 'reference time handed to _sort_vectors is the caller\'s ts (absolute timeslice)', '%r vs %r' % (ts_arg, ts))
+    if not cx.expect(len(vec_set) == T, 'one entry per timeslice handed to _sort_vectors', '%d vs %d' % (len(vec_set), T)):
+        return
+    k = 0
+    for t in range(T):
+        if t <= t0 or corr.content[t] is None:
+            cx.expect(vec_set[t] is None, 'no vectors for t <= t0 / undefined timeslice [%d]' % t)
+        else:
+            ok = vec_set[t] is not None and k < len(solved) and vec_set[t] is solved[k]
+            cx.expect(ok, 'entry t=%d is the solution of the GEVP at that timeslice' % t)
+            k += 1
+    cx.expect(len(vecs) == N and all(len(v) == T for v in vecs), 'result: N states x T timeslices')
+    for s_ in range(N):
+        for t in range(T):
+            want = None if vec_set[t] is None else vec_set[t][s_]
+            cx.expect((vecs[s_][t] is None) == (want is None) and (want is None or _same_vec(cx, vecs[s_][t], want)), 'result[state %d][t=%d] = sorted[t][state]' % (s_, t))
+
+
+HARNESSES = dict(gevp=h_gevp, bad=h_bad, prune=h_prune, sortvec=h_sortvec, gevp_sortvec=h_gevp_sortvec)
 
 
 def jobs(tier, seed):
@@ -340,6 +398,8 @@ def jobs(tier, seed):
     add('prune', N=3, Ntrunc=2, T=3, pattern=[True, True, True])
     add('prune', N=3, Ntrunc=2, T=4, pattern=[True, True, True, False], base=True)
     add('gevp', N=2, T=3, pattern=[True, True, True], t0=0, sort=None, method='cholesky', ts=1)
+    add('gevp_sortvec', N=2, T=5, pattern=[True, True, True, True, True], t0=1, ts=3)
+    add('gevp_sortvec', N=2, T=5, pattern=[True, True, False, True, True], t0=0, ts=4)
     add('sortvec', N=2, T=3, ts=1, pattern=[True, True, True], ref='skew')
     add('sortvec', N=2, T=4, ts=3, pattern=[True, False, True, True], ref='eye')
     J.append(dict(harness='sortvec', params=dict(N=3, T=3, ts=1, pattern=[False, True, True], ref='eye'), opts=dict(maxpaths=400)))
